@@ -194,6 +194,8 @@ type Session struct {
 	out   string
 	start time.Time
 
+	traceFile *os.File
+
 	mu        sync.Mutex
 	st        status
 	violCount int
@@ -278,6 +280,26 @@ func (s *Session) Violation(part string, c any, err error) string {
 	s.violCount++
 	s.mu.Unlock()
 	return path
+}
+
+// trace persists the case that is about to be evaluated, so that a crash of the whole process inside go-ipa
+// (a panic in one of its own goroutines cannot be recovered by the harness) still leaves a replay file behind.
+func (s *Session) trace(part string, c any) {
+	raw, err := json.Marshal(c)
+	if err != nil {
+		return
+	}
+	rf := ReplayFile{Property: s.ID, Part: part, Error: "the test process crashed while evaluating this case", Config: RunConfig(), Case: raw}
+	data, _ := json.Marshal(rf)
+	if s.traceFile == nil {
+		f, err := os.Create(filepath.Join(s.out, fmt.Sprintf("current-%s-shard%d.json", s.ID, Shard())))
+		if err != nil {
+			return
+		}
+		s.traceFile = f
+	}
+	_, _ = s.traceFile.WriteAt(data, 0)
+	_ = s.traceFile.Truncate(int64(len(data)))
 }
 
 // Failed reports whether a violation was recorded.
@@ -416,6 +438,7 @@ func (p *Part[C]) EvalCase(s *Session, c C) {
 		return
 	}
 	var err error
+	s.trace(p.Name, c)
 	ok := s.Guard(func() { err = p.Eval(c, s.Rec) })
 	if ok && err != nil {
 		s.Violation(p.Name, c, err)
@@ -457,6 +480,7 @@ func (p *Part[C]) Run(s *Session, checks int) {
 				return
 			}
 			c := p.Gen(rt) // rapid's own control-flow panics must propagate
+			s.trace(p.Name, c)
 			var err error
 			ok := s.Guard(func() { err = p.Eval(c, s.Rec) })
 			if !ok {
